@@ -367,6 +367,11 @@ def main_property(prop, tier, cells, meta, jobs=None):
     seed = int(os.environ.get('VERIF_SEED', '0') or 0)
     os.makedirs(EVIDENCE_DIR, exist_ok=True)
     sel = [c for c in cells if c.tier == 'quick' or tier == 'thorough']
+    if tier == 'quick':
+        for c in sel:
+            c.timeout_s = min(c.timeout_s, 900)      # a stuck solver call must not stall the quick tier
+            if c.twin_timeout_s:
+                c.twin_timeout_s = min(c.twin_timeout_s, 300)
     print('property %s tier=%s: %d cells' % (prop, tier, len(sel)), flush=True)
     results = run_cells(sel, jobs=jobs)
     known = load_known()
